@@ -7,7 +7,7 @@ import (
 // GenParams draws a chain-parameter set.
 func GenParams(t *rapid.T) ParamSpec {
 	p := ParamSpec{
-		Retarget: rapid.SampledFrom([]int{0, 4, 5, 8, 16}).Draw(t, "retarget"),
+		Retarget: Pick(t, "retarget", []int{0, 4, 5, 8, 16}),
 		Spacing:  rapid.SampledFrom([]int{30, 60, 120}).Draw(t, "spacing"),
 		Adj:      rapid.SampledFrom([]int{2, 4}).Draw(t, "adj"),
 	}
@@ -51,7 +51,7 @@ func GenBranches(t *rapid.T, n, base, max, maxLen int) []BranchSpec {
 		}
 		ln := rapid.IntRange(1, maxLen).Draw(t, "blen")
 		// bias towards exact length ties / one-more with the displaced part
-		switch rapid.IntRange(0, 5).Draw(t, "tiebias") {
+		switch Uni(t, "tiebias", 6) {
 		case 0:
 			if base-at >= 1 {
 				ln = base - at
@@ -64,7 +64,7 @@ func GenBranches(t *rapid.T, n, base, max, maxLen int) []BranchSpec {
 		if ln > maxLen {
 			ln = maxLen
 		}
-		b := BranchSpec{Parent: parent, At: at, Len: ln, Pace: rapid.IntRange(0, 4).Draw(t, "bpace")}
+		b := BranchSpec{Parent: parent, At: at, Len: ln, Pace: Uni(t, "bpace", 5)}
 		out = append(out, b)
 		tipOf = append(tipOf, at+ln)
 	}
@@ -74,5 +74,27 @@ func GenBranches(t *rapid.T, n, base, max, maxLen int) []BranchSpec {
 // GenMut draws a header mutator; the context-dependent rules (median time,
 // required difficulty) are drawn more often than the context-free ones.
 func GenMut(t *rapid.T, label string) string {
-	return rapid.SampledFrom([]string{MutMTP, MutMTP, MutMTP, MutBits, MutBits, MutBits, MutPow, MutFuture, MutPrev, MutVersion}).Draw(t, label)
+	return Pick(t, label, []string{MutMTP, MutMTP, MutMTP, MutBits, MutBits, MutBits, MutPow, MutFuture, MutPrev, MutVersion})
+}
+
+// Uni draws a (nearly) uniform integer in [0,n): rapid's IntRange and
+// SampledFrom are deliberately biased towards small values / early entries,
+// which skews weighted choices between alternatives. Shrinks towards 0.
+func Uni(t *rapid.T, label string, n int) int {
+	if n <= 1 {
+		return 0
+	}
+	v := 0
+	for i := 0; i < 12; i++ {
+		v <<= 1
+		if rapid.Bool().Draw(t, label) {
+			v |= 1
+		}
+	}
+	return v % n
+}
+
+// Pick chooses a list element uniformly.
+func Pick[T any](t *rapid.T, label string, list []T) T {
+	return list[Uni(t, label, len(list))]
 }
